@@ -116,6 +116,14 @@ def run(chk):
     chk.oblige("correspondence Atlas walls / nf_default", not bad2, str(bad2[:1]))
     bad3 = scalevar.run_scalevar(chk, 25 if quick else 300)
     chk.oblige("correspondence ScaleVariations: the beta coefficients follow the nf handed over, also when one manager serves several nf", not bad3, str(bad3[:1])[:500])
+    # every partonic channel is built with the nf of the scheme (fixed: NfFF; variable: the active flavours), heavy ones included
+    bad4 = wlayer.run_combiner(chk, 120 if quick else 1200, fixed=dict(theory=dict(FNS="FFNS"), obs=dict(TargetDIS=dict(Z=1.0, A=1.0))), name="combiner_kernel_nf")
+    chk.oblige("correspondence Combiner: nf handed to every partonic channel", not bad4, str(bad4[:1])[:400])
+    for b in bad4[:2]:
+        chk.violation("kernel-nf:%s:%s_%s" % (b["cfg"]["theory"]["FNS"], b["cfg"]["kind"], b["cfg"]["heavyness"]),
+                      "Combiner(%s_%s, %s NfFF=%s PTO=%s, %s, Q2=%r) hands its partonic channels (class, nf, heavy quark) %s, the model expects the nf of the scheme"
+                      % (b["cfg"]["kind"], b["cfg"]["heavyness"], b["cfg"]["theory"]["FNS"], b["cfg"]["theory"]["NfFF"], b["cfg"]["theory"]["PTO"], b["cfg"]["obs"]["prDIS"], b["cfg"]["Q2"], b["detail"]),
+                      dict(kind="combiner", combiner=b["cfg"]))
     patrol(chk, 9 if quick else 150)
     if chk.red() and not chk.violations:
         patrol(chk, 120)
@@ -127,6 +135,8 @@ def run(chk):
 def replay(path):
     import json
     r = json.load(open(path))
+    if r["replay"].get("kind") == "combiner":
+        t, d = wlayer.observe_collect(r["replay"]["combiner"]); print("replay: the real Combiner builds", d.get("detail")); return 1
     c = r["replay"].get("case")
     if not c:
         print("replay names a broken theorem/correspondence only:", r["what"]); return 1
